@@ -195,7 +195,7 @@ def run(ctx):
             if dom(t, d):
                 one(t, d)
     ctx.count("grid_cases", ctx.evaluations)
-    n = 40000 if ctx.quick else 1500000
+    n = 40000 if ctx.quick else 8000000
     for _ in range(n):
         t = rng.choice(types)
         d = rng.getrandbits(32)
